@@ -1,12 +1,15 @@
 #!/bin/sh
-# tools/seedall.sh : re-verify every seeded change against the CURRENT tree: applies?, pinned tests, demo both ways, check verdict
+# tools/seedall.sh [JOBS] : re-verify every seeded change against the CURRENT tree: applies?, pinned tests, demo both ways,
+# check verdict (JOBS scratch copies in parallel, default 5)
 cd "$(dirname "$0")/.."
-for p in seeded/*/patch.diff seeded/*/r[0-9]*/patch.diff; do
-  d=$(dirname $p); id=$(echo $d | cut -d/ -f2)
+one() {
+  p=$1; d=$(dirname $p); id=$(echo $d | cut -d/ -f2)
   out=$(tools/mut.py $p $id --tests --demo $d/demo.py 2>&1)
   tests=$(echo "$out" | grep -c "all 37 stable tests pass")
   demo=$(echo "$out" | grep "^demo:" | sed 's/(\([^)]*\))//g' | cut -c1-60)
   verdict=$(echo "$out" | grep -E "^$id exit=" | head -1)
   sig=$(echo "$out" | grep "signature=" | head -1 | sed 's/ cases=.*//; s/ *signature=//')
   echo "$d | tests_ok=$tests | $demo | $verdict | $sig" | cut -c1-240
-done
+}
+if [ "$1" = "--one" ]; then one $2; exit; fi
+ls seeded/*/patch.diff seeded/*/r[0-9]*/patch.diff | xargs -P ${1:-5} -n 1 "$0" --one | sort
